@@ -26,7 +26,7 @@ func TestMain(m *testing.M) {
 }
 
 func TestProp(t *testing.T) {
-	rapid.Check(t, func(t *rapid.T) { refprop.Run(t, false) })
+	rapid.Check(t, prop)
 }
 
 func TestReplay(t *testing.T) {
@@ -60,3 +60,8 @@ func TestWriteTable(t *testing.T) {
 		}
 	}
 }
+
+func prop(t *rapid.T) { refprop.Run(t, false) }
+
+// FuzzProp lets Go's coverage-guided mutator drive the structured generators (thorough tier).
+func FuzzProp(f *testing.F) { f.Fuzz(rapid.MakeFuzz(prop)) }
